@@ -92,6 +92,13 @@ BUILT: dict[str, dict[str, str]] = {
         note="Ordinary magnitudes; GA samplers are not combined with log ranges a few ulps wide (their rejection loop does not terminate there: recorded in DESIGN.md as a defect outside the listed properties); GP in the thorough tier only.",
         ref="DESIGN.md 3/C10",
     ),
+    "C02": dict(
+        technique="property-based testing (Hypothesis): generated objective programs (scripts ending in any exception or any value of a Python-value catalogue) x samplers x pruners x storages x n_jobs x catch sets x faulty callbacks / sampler hooks, and generated ask/tell sequences; expected terminal state computed from what each script did",
+        category="exploration",
+        text="Generated-program search with an executable reading of the statement as oracle (COMPLETE iff every returned element converts with float(), none is NaN and there is one per objective), checked whenever optimize returns or raises, plus exactly-once callbacks, exact trial counts, propagation of uncaught exceptions and bit-identity of finished trials under repeated tell.",
+        note="Built-in samplers; faults injected into after_trial only; n_jobs<=3 free-running threads (no schedule control here: C03/C04 own that).",
+        ref="DESIGN.md 3/C02",
+    ),
 }
 
 NOT_YET: dict[str, str] = {}
